@@ -497,3 +497,21 @@ def _int_from_bool(m, args, raw):
 @model("Option::unwrap_or", "Result::unwrap_or")
 def _unwrap_or_default(m, args, raw):
     return args[0].fields[0] if args[0].variant in ("Some", "Ok") else args[1]
+
+
+@model("num::saturating_add", "num::saturating_sub", "num::wrapping_add", "num::wrapping_sub")
+def _int_saturating(m, args, raw):
+    """usize/u64 saturating / wrapping add and sub on concrete or symbolic values (64-bit)"""
+    a, b = args[0], args[1]
+    top = (1 << 64) - 1
+    op = raw.rsplit("::", 1)[-1].split("::<")[0]
+    if isinstance(a, int) and isinstance(b, int):
+        r = a + b if op.endswith("add") else a - b
+        if op.startswith("saturating"):
+            return min(max(r, 0), top)
+        return r & top
+    za, zb = (z3.IntVal(a) if isinstance(a, int) else a), (z3.IntVal(b) if isinstance(b, int) else b)
+    r = za + zb if op.endswith("add") else za - zb
+    if op.startswith("saturating"):
+        return z3.If(r > top, z3.IntVal(top), z3.If(r < 0, z3.IntVal(0), r))
+    return r % (top + 1)
